@@ -294,7 +294,8 @@ func builtinStringSearch(call FunctionCall) Value {
 	if result == nil {
 		return intValue(-1)
 	}
-	return intValue(result[0])
+	// The result is an index in UTF-16 code units, not a byte offset.
+	return intValue(utf16Length(target[:result[0]]))
 }
 
 func builtinStringSplit(call FunctionCall) Value {
